@@ -18,11 +18,11 @@ from .common import declare_cells, declare_edges, nested, zsum
 OPS_1D = [
     # (name, expected) expected: "ok" | exception name | "maybe" (depends on the symbolic state, decided in the oracle)
     "fill", "fill_n", "fill_n_empty", "iadd_same", "isub_le", "imul_pos", "idiv_pos", "merge2", "set_float", "normalize_inplace",
-    "iadd_diffbins", "iadd_scalar", "iadd_list", "iadd_none", "isub_any", "imul_any", "imul_hist", "idiv_hist", "imul_list", "idiv_zero_list",
+    "iadd_diffbins", "isub_diffbins", "iadd_scalar", "iadd_list", "iadd_none", "isub_any", "imul_any", "imul_hist", "idiv_hist", "imul_list", "idiv_zero_list",
     "filln_wshape", "filln_w2d", "fill_badweight", "fill_nonscalar", "dtype_str", "dtype_complex", "dtype_small", "merge_frac", "merge_axis", "getitem_range",
     "set_freq_shape", "set_freq_negative", "set_err_negative", "find_bin_array",
 ]
-OPS_2D = ["fill", "fill_n", "iadd_same", "imul_pos", "merge2", "iadd_diffbins", "iadd_1d", "iadd_scalar", "isub_any", "imul_any", "filln_shape1d", "filln_cols3", "fill_wrong_len",
+OPS_2D = ["fill", "fill_n", "iadd_same", "imul_pos", "merge2", "iadd_diffbins", "isub_diffbins", "iadd_1d", "iadd_scalar", "isub_any", "imul_any", "filln_shape1d", "filln_cols3", "fill_wrong_len",
           "fill_scalar", "dtype_str", "merge_axis", "projection_bad", "getitem_toomany", "partial_bad_axis", "set_freq_shape"]
 
 
@@ -121,10 +121,13 @@ class C18Step1D(_Base):
         kind = "real" if p["subject"] == "1d-float" else "int"
         x = {"f": declare_cells(cx, "f", [2], kind), "q": declare_cells(cx, "q", [2], kind), "g": declare_cells(cx, "g", [2], kind),
              "v": cx.pyfloat("v"), "w": cx.pyint("w", 0, 3), "c": cx.pyfloat("c"), "e": declare_edges(cx, "e", 2), "t": cx.pyint("t", -2, 2)}
-        for n in ("u", "o"):
+        for n in ("u", "o", "gu", "go"):
             x[n] = cx.int(n, 0, 100) if kind == "int" else cx.real(n)
             if cx.sym and kind != "int":
                 cx.assume(x[n] >= 0)
+        if cx.sym:
+            # the operand's own under/overflow never exceed the subject's (whether missed counts may go negative is not the question here)
+            cx.assume(x["gu"] <= x["u"], x["go"] <= x["o"])
         if cx.sym:
             if p["subject"] == "1d-adaptive":
                 cx.assume(x["v"] >= x["t"] - 2, x["v"] < x["t"] + 4)
@@ -145,7 +148,7 @@ class C18Step1D(_Base):
             mk = lambda vals, **kw: H1(FWB(bin_width=1.0, bin_count=2, bin_times_min=x["t"], adaptive=True), np.asarray(vals, dtype=dt), **kw)  # noqa: E731
             return mk(x["f"], errors2=np.asarray(x["q"], dtype=dt)), mk(x["g"])
         mk = lambda vals, **kw: H1(np.asarray(x["e"]), np.asarray(vals, dtype=dt), **kw)  # noqa: E731
-        return mk(x["f"], errors2=np.asarray(x["q"], dtype=dt), underflow=x["u"], overflow=x["o"]), mk(x["g"])
+        return mk(x["f"], errors2=np.asarray(x["q"], dtype=dt), underflow=x["u"], overflow=x["o"]), mk(x["g"], underflow=x["gu"], overflow=x["go"])
 
     def _call(self, E, p, x, h, g, op):
         """-> (expected, thunk, other)"""
@@ -187,9 +190,10 @@ class C18Step1D(_Base):
                 setattr(h, name, val)
             return run
 
-        other_bins = H1(np.asarray([1000.0, 1001.0, 1002.0]), np.asarray([1, 1]))
+        other_bins = H1(np.asarray([1000.0, 1001.0, 1002.0]), np.asarray([1, 1]), underflow=1, overflow=2)
         H2 = E.mod("physt.histogram_nd").Histogram2D
         table = {
+            "isub_diffbins": (("ValueError", "RuntimeError") if p["subject"] != "1d-adaptive" else "maybe", isub(other_bins), other_bins),
             "fill": ("ok", lambda: h.fill(v, w), None),
             "fill_n": ("ok", lambda: h.fill_n(np.asarray([v, v]), weights=np.asarray([w, 1])), None),
             "fill_n_empty": ("maybe", lambda: h.fill_n(np.asarray([], dtype=float)), None),
@@ -272,11 +276,12 @@ class C18Step2D(_Base):
             yield f"2d-{op}", dict(subject="2d", ops=[op])
 
     def declare(self, cx, p):
-        x = {"f": declare_cells(cx, "f", [2, 2], "int"), "q": declare_cells(cx, "q", [2, 2], "int"), "g": declare_cells(cx, "g", [2, 2], "int"), "m": cx.int("m", 0, 100),
+        x = {"f": declare_cells(cx, "f", [2, 2], "int"), "q": declare_cells(cx, "q", [2, 2], "int"), "g": declare_cells(cx, "g", [2, 2], "int"), "m": cx.int("m", 0, 100), "gm": cx.int("gm", 0, 100),
              "v": cx.pyfloat("v"), "w": cx.pyint("w", 0, 3), "c": cx.pyfloat("c"), "e": [declare_edges(cx, f"e{k}_", 2) for k in range(2)]}
         if cx.sym:
             cx.assume(x["c"] >= -2, x["c"] <= 2)
             cx.assume(*[z3.And(cx.t(t) >= -100, cx.t(t) <= 100) for k in range(2) for t in x["e"][k]])
+            cx.assume(x["gm"] <= x["m"])
         return x
 
     def drive(self, E, p, x):
@@ -284,9 +289,9 @@ class C18Step2D(_Base):
         H2 = E.mod("physt.histogram_nd").Histogram2D
         H1 = E.mod("physt.histogram1d").Histogram1D
         mk = lambda vals, **kw: H2([np.asarray(x["e"][0]), np.asarray(x["e"][1])], np.asarray(nested(vals, [2, 2]), dtype=int), **kw)  # noqa: E731
-        h, g = mk(x["f"], errors2=np.asarray(nested(x["q"], [2, 2]), dtype=int), missed=x["m"]), mk(x["g"])
+        h, g = mk(x["f"], errors2=np.asarray(nested(x["q"], [2, 2]), dtype=int), missed=x["m"]), mk(x["g"], missed=x["gm"])
         v, w, c = x["v"], x["w"], x["c"]
-        other_bins = H2([np.asarray([1000.0, 1001.0, 1002.0]), np.asarray(x["e"][1])], np.asarray([[1, 1], [1, 1]]))
+        other_bins = H2([np.asarray([1000.0, 1001.0, 1002.0]), np.asarray(x["e"][1])], np.asarray([[1, 1], [1, 1]]), missed=3)
         one_d = H1(np.asarray(x["e"][0]), np.asarray([1, 1]))
 
         def iadd(val):
@@ -319,6 +324,7 @@ class C18Step2D(_Base):
             "imul_pos": ("ok", imul(2), None),
             "merge2": ("ok", lambda: h.merge_bins(2, axis=0, inplace=True), None),
             "iadd_diffbins": (("ValueError", "RuntimeError"), iadd(other_bins), other_bins),
+            "isub_diffbins": (("ValueError", "RuntimeError"), isub(other_bins), other_bins),
             "iadd_1d": ("ValueError", iadd(one_d), None),
             "iadd_scalar": ("TypeError", iadd(3), None),
             "isub_any": ("maybe", isub(g), g),
